@@ -1,26 +1,43 @@
 import Starcal.RaceA
+import Starcal.Serial
 import Starcal.Gen.LockSeq
+import Starcal.Gen.LockSkel
 /-! # C16 — thread-safe set: every operation is atomic under concurrency (race-free)
 
 `Gen.lockSeqs` is regenerated on every run: for each of the 18 operations and each operand
 assignment over two sets, the lock events *recorded from the implementation* interleaved with the
-accesses to the sets' maps found in the source. `discA` is the static ACCESS discipline: an access needs
+accesses to the sets' maps found by walking the source (every source path whose lock calls are
+exactly the recorded events; several entries for one operation and assignment when several fit). `discA` is the static ACCESS discipline: an access needs
 the set's lock in the required mode (shared for a read, exclusive for a write), releases match what
 is held, nothing is held at the end (the acquisition ORDER is C17's business, not C16's).
 
-**Partial**: data-race freedom and mutual exclusion are proved for every reachable state of every
-program; the last step to linearizability ("therefore the history equals a sequential one in
-lock-point order") is not proved in Lean. The Go scheduler and the memory model below
+Data-race freedom and mutual exclusion are proved for every reachable state of every program
+(`C16_no_race`, `C16_exclusion_partial`). The step to linearizability is `C16_linearizable`: on the
+machine WITH DATA of `Serial.lean` (a read access feeds the set's current contents into the
+operation's local state, a write access replaces them — for ANY such semantics), every execution
+of any program of the 18 operations that runs to completion leaves the memory and every
+operation's results exactly as running the operations one at a time does, in the order of their
+first releases; each operation takes effect between its first action and its return
+(`C16_effect_between_call_and_return`), so that order is consistent with real time.
+**Partial** in this respect: the machine of `Serial.lean` uses the plain reader/writer lock, whose
+executions include those of the writer-preferring lock of `Lock.lean` (the announcement is a stutter
+step that only removes schedules); that inclusion is argued in the file header, not proved in Lean. The Go scheduler and the memory model below
 `sync.RWMutex` are not modelled: the lock is assumed to provide the ordering its documentation
 promises. -/
 namespace Starcal.Props
-open Starcal.Lock Starcal.Gen
+open Starcal.Lock Starcal.Gen Starcal.Serial
 
 /-- every operation, under every operand assignment, holds the required lock at every access -/
 theorem C16_ops_disciplined : lockSeqs.all (fun e => discA [] e.2.2) = true := by decide
 
 /-- all 18 operations of the set interface were extracted -/
 theorem C16_eighteen_operations : (lockSeqs.map (·.1)).eraseDups.length = 18 := by decide
+
+/-- the lock events of every entry are exactly the events recorded for that operation and operand
+    assignment, and every recorded (operation, assignment) has an entry -/
+theorem C16_lock_events_are_recorded :
+    lockSeqs.all (fun e => lockSkels.contains (e.1, e.2.1, skeleton e.2.2)) = true ∧
+    lockSkels.all (fun k => lockSeqs.any (fun e => e.1 == k.1 && e.2.1 == k.2.1)) = true := by decide
 
 /-- the action sequences of the operations -/
 def opSeqs : List (List Act) := lockSeqs.map (·.2.2)
@@ -55,12 +72,93 @@ theorem C16_discipline_preserved (progs : List (List (List Act))) (h : IsProgram
     (hr : Reach (startState progs) s) : ∀ th ∈ s, GoodA th :=
   (reachA_inv (program_initialA progs h) hr).1
 
+/-- every operation is two-phase: no acquisition and no access after its first release -/
+theorem C16_ops_two_phase : lockSeqs.all (fun e => Serial.twoPh e.2.2) = true := by decide
+
+/-- **linearizability on the model with data**: any semantics of reads and writes, any number of
+    goroutines, any sequences of the 18 operations (under any operand assignment), any initial
+    contents and local states: a completed execution ends in the state the atomic machine reaches by
+    running the operations one at a time in the order `s.sched` in which they took effect -/
+theorem C16_linearizable {D L : Type} (S : Serial.Sem D L) (progs : Nat → List (List Act))
+    (hprog : ∀ t, ∀ c ∈ progs t, c ∈ opSeqs) (l0 : Nat → L) (m0 : Nat → D) (s : Serial.St D L)
+    (hr : Serial.Reach S (Serial.init progs l0 m0) s) (hdone : ∀ t, (s.th t).prog = []) :
+    Serial.runSerial S { progs := progs, loc := l0, mem := m0 } s.sched =
+      { progs := fun _ => [], loc := fun t => (s.th t).loc, mem := s.mem } := by
+  apply Serial.serializable S progs l0 m0 _ s hr hdone
+  intro t c hc
+  have hm := hprog t c hc
+  unfold opSeqs at hm
+  obtain ⟨e, he, rfl⟩ := List.mem_map.mp hm
+  exact ⟨List.all_eq_true.mp C16_ops_disciplined e he, List.all_eq_true.mp C16_ops_two_phase e he⟩
+
+/-- **consistent with real time**: at every moment of every execution, the operations of a
+    goroutine that have taken effect are exactly its first `count` operations, and what is left for
+    the atomic machine is the goroutine's remaining program with or without the operation in
+    progress — an operation that has returned has taken effect, one that has not started has not;
+    and the order of effect only ever grows at its end. -/
+theorem C16_effect_between_call_and_return {D L : Type} (S : Serial.Sem D L) (progs : Nat → List (List Act))
+    (hprog : ∀ t, ∀ c ∈ progs t, c ∈ opSeqs) (l0 : Nat → L) (m0 : Nat → D) (s s' : Serial.St D L)
+    (hr : Serial.Reach S (Serial.init progs l0 m0) s) (hr' : Serial.Reach S s s') (t : Nat) :
+    (progs t).drop (s.sched.count t) = Serial.aprog (s.th t) ∧
+    (Serial.aprog (s.th t) = (s.th t).prog.tail ∨
+      (Serial.aprog (s.th t)).tail = (s.th t).prog.tail ∧ (Serial.aprog (s.th t)).length = (s.th t).prog.length) ∧
+    ∃ l, s'.sched = s.sched ++ l := by
+  have hp : ∀ t, ∀ c ∈ progs t, discA [] c = true ∧ Serial.twoPh c = true := by
+    intro t c hc
+    have hm := hprog t c hc
+    unfold opSeqs at hm
+    obtain ⟨e, he, rfl⟩ := List.mem_map.mp hm
+    exact ⟨List.all_eq_true.mp C16_ops_disciplined e he, List.all_eq_true.mp C16_ops_two_phase e he⟩
+  have h := Serial.inv_reach S _ (Serial.inv_init S progs l0 m0 hp) hr
+  exact ⟨(Serial.committed_prefix S _ s h t).symm, Serial.aprog_window _, Serial.sched_prefix S hr'⟩
+
 -- non-vacuity: a concrete program of extracted operations
-example : ([.wlock 0, .access 0 true, .unlock 0] : List Act) ∈ opSeqs := by decide
-example : ([.rlock 0, .rlock 1, .access 1 false, .access 0 false, .runlock 0, .runlock 1] : List Act) ∈ opSeqs := by decide
+example : opSeqs.any (fun c => c.contains (.access 0 true) && c.contains (.wlock 0)) = true := by decide
+example : opSeqs.any (fun c => c.contains (.rlock 0) && c.contains (.rlock 1) && c.contains (.access 0 false) && c.contains (.access 1 false)) = true := by decide
 /-- the defect repaired by a `fix:` commit: SymmetricDifference without any lock fails the discipline -/
 example : discA [] [.access 1 false, .access 0 false] = false := by decide
 /-- … and so does an access after the lock was released (a map header copied under the lock) -/
 example : discA [] [.rlock 0, .access 0 false, .runlock 0, .access 0 false] = false := by decide
+
+/-- contents = a counter, local state = the log of values read -/
+def demoSem : Sem Nat (List Nat) := { rd := fun l _ d => d :: l, wr := fun l _ d => (l, d + 1) }
+
+def demoProgs : Nat → List (List Act) := fun t =>
+  if t = 0 then [[.wlock 0, .access 0 true, .unlock 0]]
+  else if t = 1 then [[.rlock 0, .access 0 false, .runlock 0]] else []
+
+/-- the premises of `C16_linearizable` are satisfiable: a writer and a reader on one set, the
+    reader scheduled first -/
+example : ∃ s, Serial.Reach demoSem (init demoProgs (fun _ => []) (fun _ => 0)) s ∧ (∀ t, (s.th t).prog = []) ∧
+    s.sched = [1, 0] ∧ s.mem 0 = 1 ∧ (s.th 1).loc = [0] := by
+  have r0 := Serial.Reach.refl (S := demoSem) (init demoProgs (fun _ => ([] : List Nat)) (fun _ => (0 : Nat)))
+  have r1 := Reach.step r0 (Step.acq _ 1 (.rlock 0) _ _ 0 false rfl rfl (by intro u _; simp [init]))
+  have r2 := Reach.step r1 (Step.read _ 1 _ _ 0 rfl)
+  have r3 := Reach.step r2 (Step.rel _ 1 (.runlock 0) _ _ 0 false rfl rfl)
+  have r4 := Reach.step r3 (Step.ret _ 1 _ rfl)
+  have r5 := Reach.step r4 (Step.acq _ 0 (.wlock 0) _ _ 0 true rfl rfl (by
+        intro u hu
+        by_cases h1 : u = 1
+        · subst h1; simp [upd, init]
+        · simp [upd, init, h1]))
+  have r6 := Reach.step r5 (Step.write _ 0 _ _ 0 rfl)
+  have r7 := Reach.step r6 (Step.rel _ 0 (.unlock 0) _ _ 0 true rfl rfl)
+  have r8 := Reach.step r7 (Step.ret _ 0 _ rfl)
+  refine ⟨_, r8, ?_, rfl, rfl, rfl⟩
+  intro t
+  by_cases h0 : t = 0
+  · subst h0; rfl
+  · by_cases h1 : t = 1
+    · subst h1; rfl
+    · simp [upd, init, h0, h1, demoProgs]
+
+example : ∀ t, ∀ c ∈ demoProgs t, c ∈ opSeqs := by
+  intro t c hc
+  unfold demoProgs at hc
+  split at hc
+  · simp only [List.mem_singleton] at hc; subst hc; decide
+  · split at hc
+    · simp only [List.mem_singleton] at hc; subst hc; decide
+    · simp at hc
 
 end Starcal.Props
